@@ -3,6 +3,7 @@ package harness
 import (
 	"bytes"
 	"encoding/csv"
+	"encoding/json"
 	"fmt"
 	"math"
 	"math/rand"
@@ -10,6 +11,7 @@ import (
 	"path/filepath"
 	"reflect"
 	"strconv"
+	"strings"
 	"time"
 
 	"github.com/cinar/indicator/v2/helper"
@@ -269,7 +271,7 @@ func (c11) Gen(rng *rand.Rand, tier string, k int) *Case {
 		c.Ops[at] = last
 	}
 	c.Ops = append(c.Ops, OpSpec{Op: "strrows", N: rng.Intn(6), Seed: rng.Int63n(1 << 30)})
-	c.Ops = append(c.Ops, OpSpec{Op: "json", N: rng.Intn(6), Seed: rng.Int63n(1 << 30), From: rng.Intn(13)}) // From: element type
+	c.Ops = append(c.Ops, OpSpec{Op: "json", N: rng.Intn(6), Seed: rng.Int63n(1 << 30), From: rng.Intn(16)}) // From: element type
 	if rng.Intn(16) == 0 {
 		c.Ops[len(c.Ops)-1].N = 100 + rng.Intn(500) // a document of several buffers' length
 	}
@@ -631,6 +633,12 @@ func (c11) Run(c *Case, st *Stats) []Violation {
 							ok, why = jsonInts(c, st, rng, op.N, []float32{0, 1, -1, 0.1, 1.0 / 3, math.MaxFloat32, math.SmallestNonzeroFloat32, 16777217})
 						case 12:
 							ok, why = jsonInts(c, st, rng, op.N, []uint16{0, 1, 255, 256, 65535})
+						case 13: // an enumeration of integer kind with its own text form
+							ok, why = jsonInts(c, st, rng, op.N, []actT{0, 1, 2, -1, 77})
+						case 14: // a scaled number of integer kind written as a JSON string
+							ok, why = jsonInts(c, st, rng, op.N, []centsT{0, 1, -1, 1234, -99, 100, 1 << 40})
+						case 15: // a float kind with its own JSON form
+							ok, why = jsonInts(c, st, rng, op.N, []pctT{0, 0.5, -0.25, 1, 12.5})
 						case 6:
 							v := make([]any, op.N)
 							for k := range v {
@@ -736,6 +744,89 @@ type csvStrRow struct {
 }
 
 type byteT uint8
+
+// actT, centsT and pctT are element types of a numeric kind that define their own JSON form.
+type actT int
+
+func (s actT) MarshalText() ([]byte, error) {
+	switch s {
+	case 0:
+		return []byte("hold"), nil
+	case 1:
+		return []byte("buy"), nil
+	case -1:
+		return []byte("sell"), nil
+	}
+	return []byte("side#" + strconv.Itoa(int(s))), nil
+}
+
+func (s *actT) UnmarshalText(b []byte) error {
+	switch t := string(b); {
+	case t == "hold":
+		*s = 0
+	case t == "buy":
+		*s = 1
+	case t == "sell":
+		*s = -1
+	case strings.HasPrefix(t, "side#"):
+		n, err := strconv.Atoi(t[5:])
+		*s = actT(n)
+		return err
+	default:
+		return fmt.Errorf("no side %q", t)
+	}
+	return nil
+}
+
+type centsT int64
+
+func (v centsT) MarshalJSON() ([]byte, error) {
+	sign, a := "", int64(v)
+	if a < 0 {
+		sign, a = "-", -a
+	}
+	return []byte(fmt.Sprintf("\"%s%d.%02d\"", sign, a/100, a%100)), nil
+}
+
+func (v *centsT) UnmarshalJSON(b []byte) error {
+	t := strings.Trim(string(b), "\"")
+	neg := strings.HasPrefix(t, "-")
+	t = strings.TrimPrefix(t, "-")
+	whole, frac, ok := strings.Cut(t, ".")
+	if !ok || len(frac) != 2 {
+		return fmt.Errorf("no amount %q", string(b))
+	}
+	w, err := strconv.ParseInt(whole, 10, 64)
+	if err != nil {
+		return err
+	}
+	f, err := strconv.ParseInt(frac, 10, 64)
+	if err != nil {
+		return err
+	}
+	*v = centsT(w*100 + f)
+	if neg {
+		*v = -*v
+	}
+	return nil
+}
+
+type pctT float64
+
+func (v pctT) MarshalJSON() ([]byte, error) {
+	return []byte(fmt.Sprintf("{\"pct\":%s}", strconv.FormatFloat(float64(v)*100, 'g', -1, 64))), nil
+}
+
+func (v *pctT) UnmarshalJSON(b []byte) error {
+	var d struct {
+		Pct float64 `json:"pct"`
+	}
+	if err := json.Unmarshal(b, &d); err != nil {
+		return err
+	}
+	*v = pctT(d.Pct / 100)
+	return nil
+}
 
 // jsonInts round-trips n values drawn from a pool of one numeric element type.
 func jsonInts[T comparable](c *Case, st *Stats, rng *rand.Rand, n int, pool []T) (bool, string) {
